@@ -337,7 +337,7 @@ class CIMachine(FormatMachine):
         vid = str(op["vid"])
         v = self.mods().Variant(s.obj)
         v.id, v.uid, v.name, v.type = op["id"], op["uid"], op["name"], op["type"]
-        from ..seams import SimSet
+        from ..seams import make_set as SimSet
         v.arches = SimSet(op["arches"])
         rel = None
         if op.get("release"):
@@ -364,7 +364,7 @@ class CIMachine(FormatMachine):
         v = s.pool[vid]
         mv = s.model["vars"][vid]
         if f == "arches":
-            from ..seams import SimSet
+            from ..seams import make_set as SimSet
             v.arches = SimSet(val) if isinstance(val, list) else val
             mv["arches"] = list(val) if isinstance(val, list) else val
         elif f.startswith("release."):
